@@ -20,7 +20,8 @@ def _bad(kind, enc):
     }[kind]
 
 
-def replay_fault(n, k, fault, enc, blocked, lens, L, cut):
+def replay_fault(n, k, fault, enc, blocked, lens, L, cut, goods=None, t=None):
+    given = goods
     from cardutil import mciipm, iso8583, CardutilError
     import cardutil.cli as cli
     f = io.BytesIO()
@@ -42,6 +43,8 @@ def replay_fault(n, k, fault, enc, blocked, lens, L, cut):
         else:
             ln = max(1, (lens[i - 1] or 5))
             msg = {'MTI': '1240', 'DE2': 'P' * min(ln, 99)} if i % 2 == 0 else {'MTI': '1240', 'DE3': '123456', 'DE63': 'Q' * max(1, min(ln - 9, 300))}
+            if given and given[i - 1]:
+                msg = ref.concrete_msg(given[i - 1])
             body = iso8583.dumps(dict(msg), encoding=enc)
             w.write(body)
             goods.append((msg, body))
@@ -52,7 +55,8 @@ def replay_fault(n, k, fault, enc, blocked, lens, L, cut):
         body = goods[k - 1][1]
         c = min(cut or 0, len(body) - 1)
         p = start + 4 + c
-        t = (p // 1012) * 1014 + p % 1012 if blocked else p
+        if t is None:
+            t = (p // 1012) * 1014 + p % 1012 if blocked else p
         data = data[:t]
         raw_k = struct.pack('>I', len(body)) + body[:c]
     rd = mciipm.IpmReader(io.BytesIO(data), encoding=enc, blocked=blocked)
